@@ -16,7 +16,7 @@ ASSUMPTIONS = [
 ]
 BOUNDS = {
     "quick": "Sampler and QuickSampler on 2-3 mode circuits with symbolic reflectivity / parameter values / brightness; every sequence of 2 reconfigurations out of 9 (reassign circuit, reassign circuit with the same unitary but a different herald photon number, edit the circuit in place, set a circuit Parameter v1->v2, change input, brightness old->new, backend, post-selection, detector mode) with a distribution read in between or not; sampling without a prior read; Analyzer with and without expected",
-    "thorough": "sequences of 3 reconfigurations",
+    "thorough": "sequences of 3 reconfigurations starting with a herald move, herald photon change, parameter set or input change",
 }
 OUTSIDE = "longer histories; purity/indistinguishability changes (covered for fresh objects by C06)"
 STUBS = ["as C07"]
@@ -250,18 +250,19 @@ def harnesses(tier):
     hist = []
     for kind in ("sampler", "quick"):
         avail = [o for o in OPS if not (kind == "sampler" and o == "postselect") and not (kind == "quick" and o in ("brightness", "backend"))]
+        firsts = avail if L == 2 else ["circuit-herald-moved", "circuit-same-U-other-herald", "param-set", "input"]
         for ops in itertools.product(avail, repeat=L):
+            if ops[0] not in firsts:
+                continue
             if L == 3 and ops[0] == ops[1] == ops[2]:
                 continue
-            for rb in (True, False):
-                if L == 3 and not rb and ops[0] > ops[1]:
-                    continue
+            for rb in ((True, False) if L == 2 else (True,)):
                 hist.append(dict(kind=kind, ops=list(ops), read_between=rb))
         for o in avail:
             hist.append(dict(kind=kind, ops=[o], read_between=True))
     swr = [dict(kind=k, op=o) for k in ("sampler", "quick") for o in (None, "param-set", "input", "circuit-edit", "detector-mode")]
     return [
-        ("history", h_history, hist, dict(max_paths=400, max_seconds=400)),
+        ("history", h_history, hist, dict(max_paths=4000, max_seconds=1500)),
         ("sample-without-read", h_sample_without_read, swr),
         ("analyzer", h_analyzer, [dict(first_expected=a, second_expected=b) for a in (True, False) for b in (True, False)]),
     ]
